@@ -40,7 +40,7 @@ def fa_entry(snap):
     return next((d, m) for p, d, m in snap if p == real)
 
 CONTENTS = {
-    "A": [("r1", b"ACGTNNACGT", 4), ("r2", b"GGnnA", 5)],
+    "A": [("r10", b"ACGTNNACGT", 4), ("r1", b"GGnnA", 5)],  # (the second name is contained in the first)
     "B": [("r1", b"ACGTACGTAC", 5)],
     "C": [("s1", b"NNAC", 2), ("s2", b"A", 1), ("m", b"NNN", 2), ("s3", b"ACGTT", 60)],  # "m": a fully masked record
 }
@@ -101,7 +101,7 @@ class SeqRunner:
         finally:
             v.uninstall()
 
-    def load(self, snap, now, crash_at=None, fresh_process=True, reuse_obj=None):
+    def load(self, snap, now, crash_at=None, fresh_process=True, reuse_obj=None, interrupt_at=None):
         """
         fresh VFS from (snap, now); one auto_load by a fresh virtual pid, killed
         before its crash_at-th file operation if given.  Returns
@@ -123,6 +123,9 @@ class SeqRunner:
             if crash_at is not None and len(points) >= crash_at:
                 raise Killed()
             points.append((op, path))
+            if interrupt_at is not None and len(points) == interrupt_at + 1:
+                # an interrupt (Ctrl-C, SIGTERM handler): unlike a crash, the library's clean-up code still runs
+                raise KeyboardInterrupt()
 
         v.hook_fn = hook
         v.install()
@@ -134,7 +137,7 @@ class SeqRunner:
                 self.last_obj = fi
                 fi.auto_load()
                 res = ("ok", *observed(fi))
-            except Killed:
+            except (Killed, KeyboardInterrupt):
                 res = ("killed",)
             except Exception as e:  # noqa: BLE001
                 if "HARNESS-UNSUPPORTED" in str(e):
@@ -171,7 +174,7 @@ class C15(Check):
     )
     rule = (
         "E2p: every history of <= 5 (6) operations (load by a new object, auto_load again on the history's first object, construct an object now / load it later, rewrite, rm .fai, rm .agp) replayed inside one process, in-memory state of the library kept between its loads (each load of E2 and each run of E3 starts from a fresh library state). E2: states = (FASTA content in {A,B,C}, .fai/.agp bytes or absent, order relation of the three mtimes and the clock); transitions = tick, "
-        "rewrite(X != current, mtime = now), rm .fai, rm .agp, load, load crashed before its k-th file operation for every k; BFS to fixpoint, for stream "
+        "rewrite(X != current, mtime = now), rm .fai, rm .agp, load, load crashed before its k-th file operation for every k, load interrupted (KeyboardInterrupt, clean-up code runs) at its k-th file operation for every k; BFS to fixpoint, for stream "
         "buffer sizes {16, 1}, one 8192-buffer run on a cache > 8 KiB, and one run (contents {A,B}) in which the FASTA path is a symbolic link made once and the bytes are rewritten at its target. Invariant after every load: raised, or index and assembly == reference of the "
         "current content; if the cache was missing or not strictly newer, both cache files were (re)written by this load. E3: 2 and 3 virtual processes (in further runs one of them crashes at any of its file operations) "
         "each doing one auto_load from pre-states {no cache, stale cache, valid cache, .fai only}; every operation on .fai/.agp is a "
@@ -259,8 +262,8 @@ class C15(Check):
             data = fa_entry(snap)[0]
             return next(c for c in contents if reference(c)[0] == data)
 
-        def do_load(snap, now, crash_at, hist):
-            res, points, snap2, log, foreign = runner.load(snap, now, crash_at)
+        def do_load(snap, now, crash_at, hist, interrupt_at=None):
+            res, points, snap2, log, foreign = runner.load(snap, now, crash_at, interrupt_at=interrupt_at)
             if foreign and not keep_others:
                 raise _ForeignTouch()
             ctx.transitions += 1
@@ -327,6 +330,8 @@ class C15(Check):
         _res, points, _s, _l = do_load(snap, now, None, ())
         for k in range(len(points)):
             out.append(("load-crash", k))
+        for k in range(len(points)):
+            out.append(("load-interrupt", k))
         return out
 
     def apply(self, op, snap, now, contents, do_load, check_load, hist):
@@ -346,6 +351,9 @@ class C15(Check):
             return snap2, now, True
         if op[0] == "load-crash":
             _res, _points, snap2, _log = do_load(snap, now, op[1], hist)
+            return snap2, now, True
+        if op[0] == "load-interrupt":
+            _res, _points, snap2, _log = do_load(snap, now, None, hist, interrupt_at=op[1])
             return snap2, now, True
         raise ValueError(op)
 
